@@ -455,12 +455,15 @@ func c07GenHuge(g *Gen, cfs ...*c07Conf) {
 func c07GenBoundary64K(g *Gen) {
 	// production limits; the rewritten field (inline class + unescape) around the 16-bit length boundary
 	cf := c07SampleLike(1<<20, 1<<20+256)
-	lens := []int{65534, 65535, 65536, 65537}
+	lens := []int{65535, 65536, 65537}
 	if g.Thorough() {
 		lens = []int{65520, 65530, 65533, 65534, 65535, 65536, 65537, 65538, 65540, 70000}
 	}
 	for _, n := range lens {
 		for variant := 0; variant < 4; variant++ {
+			if !g.Thorough() && n != 65536 && variant%2 == 1 {
+				continue
+			}
 			r := c07Base()
 			r.App, r.Source = "other", "s"
 			switch variant {
@@ -478,7 +481,7 @@ func c07GenBoundary64K(g *Gen) {
 		}
 	}
 	// plain fields at the str8/str16/str32 boundaries
-	for _, n := range []int{255, 256, 65535, 65536} {
+	for _, n := range []int{256, 65536} {
 		r := c07Base()
 		r.Pid = strings.Repeat("p", n)
 		c07EmitSeq(g, "field-64k", cf, c07Around(r.bytes(), 1))
@@ -780,8 +783,15 @@ func c07GenAgent(g *Gen) {
 	const prodMsg, prodRec = 1 << 20, 1<<20 + 256
 	line := func(r []byte) []byte { return append(append([]byte(nil), r...), '\n') }
 	emit := func(class string, maxMsg, maxRec int, blobs [][]byte, script []int64) {
+		var t c07Table
+		for i, b := range blobs {
+			if int(t.add(b)) != i {
+				panic("c07: duplicate blob")
+			}
+		}
+		z := append([]int64{int64(maxMsg), int64(maxRec), int64(len(t.reps))}, t.reps...)
 		g.Count(class)
-		g.Case(3, blobs, append([]int64{int64(maxMsg), int64(maxRec)}, script...))
+		g.Case(3, t.s, append(z, script...))
 	}
 	b := c07Base()
 	b.Source = "main.log"
